@@ -539,10 +539,12 @@ func (e *Exec) tryMerge(fr *Frame, b *ssa.BasicBlock, c *smt.Term) (cont, bool) 
 		e.gconj = nil
 		savedBlock, savedPrev, savedPC := fr.block, fr.prev, fr.pc
 		restore := func() { fr.block, fr.prev, fr.pc, fr.atStart, fr.skipPhis = savedBlock, savedPrev, savedPC, false, false }
+		depth0 := e.sideDepth
 		defer func() {
 			e.log = outer
 			e.guards = e.guards[:len(e.guards)-1]
 			e.gconj = nil
+			e.sideDepth = depth0 // also when the side was left by a panic
 			if r := recover(); r != nil {
 				lg.rollback()
 				restore()
